@@ -22,9 +22,17 @@ Semantics of the embedding (nothing is silently totalised):
     `if let`, `match` on `Option`/enums with guards and `_`, `max`/`min`.
 Anything else makes the script exit non-zero ("broken tie", DESIGN §2.3).
 
-Usage: `python3 rs2lean.py` writes Generated/Code.lean (only if the content changed) and prints
-nothing on success.  `generate()` returns the text.  Sources: `$VERIF_SRC`, else
-`$VERIF_REPO/jmespath/src`, else /repo/jmespath/src.
+Second target (`generate_interp()`, class `InterpGen`): the *whole* `pub fn interpret(data, node, ctx)` of
+interpreter.rs -> `lean/JmesVerif/Generated/InterpCode.lean` (namespace `JmesVerif.Generated.InterpCode`), proved equal
+to the hand model `interp` by `Lemmas/InterpEquiv.lean`.  Additional Rust constructs: struct patterns with `ref` / `..`,
+`?`, `Ok`/`Err`, `for x in xs { .. }`, `match e.as_array()`, `match *v { Variable::X(ref p) => .. }`, `if let`,
+`.map_or(a, |x| b)`, reads and assignments of `ctx.offset`, method chains of a fixed idiom table.  The translation
+scheme (offset register threaded, fuel, one function per loop, continuation-passing translation of control flow) and
+the idiom table are spelled out in `INTERP_HEADER` below, which is copied into the generated file.
+
+Usage: `python3 rs2lean.py` writes Generated/Code.lean and Generated/InterpCode.lean (only if the content changed) and
+prints nothing on success.  `generate()` / `generate_interp()` return the texts.  Sources: `$VERIF_SRC`, else
+`$VERIF_REPO/jmespath/src`, else /repo/jmespath/src.  (`$RS2LEAN_INTERP_OUT` redirects the second output; for experiments.)
 """
 import hashlib
 import os
@@ -176,6 +184,7 @@ class SourceFile:
             raise TieError(f"cannot read {path}: {e}")
         self.toks = tokenize(self.text, name)
         self.fns = []      # (impl type name or None, fn name, index of `fn`)
+        self.arm_lines = {}  # id(pattern of a match arm) -> (first line, last line)
         self.enums = {}    # name -> index of `enum`
         self.structs = {}  # name -> index of `struct`
         self._scan()
@@ -483,10 +492,22 @@ class Parser:
                 if nt.kind == "num":
                     fail("tuple field access is outside the subset", nt, self.sf.name)
                 name = self.ident()
+                targs = None
                 if self.at("::"):
-                    fail("turbofish is outside the subset", self.peek(), self.sf.name)
+                    if not self.at("<", 1):
+                        fail("turbofish is outside the subset", self.peek(), self.sf.name)
+                    self.i += 2
+                    targs = []
+                    while not self.at(">"):
+                        targs.append(self.ty())
+                        if not self.eat(","):
+                            break
+                    self.expect(">")
+                    if not self.at("("):
+                        fail("turbofish without a call is outside the subset", self.peek(), self.sf.name)
                 if self.at("("):
-                    e = ("mcall", e, name, self.args(), t.line)
+                    e = ("mcall", e, name, self.args(), t.line) if targs is None else \
+                        ("mcall", e, name, self.args(), t.line, targs)
                 else:
                     e = ("field", e, name, t.line)
             elif self.at("("):
@@ -497,7 +518,8 @@ class Parser:
                 self.expect("]")
                 e = ("index", e, idx, t.line)
             elif self.at("?"):
-                fail("the `?` operator is outside the subset", t, self.sf.name)
+                self.i += 1
+                e = ("try", e, t.line)
             else:
                 return e
 
@@ -521,7 +543,7 @@ class Parser:
                 stmts.append(("expr", e, t.line))
             elif self.at("}"):
                 tail = e
-            elif e[0] in ("if", "match", "while", "block"):
+            elif e[0] in ("if", "match", "while", "block", "for"):
                 stmts.append(("expr", e, t.line))
             else:
                 fail(f"unsupported syntax: expected `;` or `}}`, found `{self.peek().text}`", self.peek(),
@@ -585,11 +607,13 @@ class Parser:
             while not self.at("}"):
                 self.skip_attrs()
                 self.eat("|")
+                l0 = self.peek().line
                 pat = self.pattern()
                 guard = self.expr() if self.eat("if") else None
                 self.expect("=>")
                 body = self.expr()
                 arms.append((pat, guard, body))
+                self.sf.arm_lines[id(pat)] = (l0, self.peek(-1).line)
                 if not self.eat(",") and not self.at("}"):
                     if body[0] not in ("block", "if", "match"):
                         fail("unsupported syntax in match arm", self.peek(), self.sf.name)
@@ -599,10 +623,28 @@ class Parser:
             if self.at(";") or self.at("}"):
                 return ("return", None, t.line)
             return ("return", self.expr(), t.line)
-        if t.kind == "id" and t.text in ("for", "loop", "break", "continue", "unsafe", "move", "async"):
+        if self.eat("for"):
+            pat = self.pattern1()
+            self.expect("in")
+            it = self.expr(nostruct=True)
+            body = self.block()
+            return ("for", pat, it, body, t.line, self.peek(-1).line)
+        if t.kind == "id" and t.text in ("loop", "break", "continue", "unsafe", "move", "async"):
             fail(f"`{t.text}` is outside the subset", t, self.sf.name)
-        if self.at("|") or self.at("||"):
-            fail("closures are outside the subset", t, self.sf.name)
+        if self.at("||"):
+            fail("closures without parameters are outside the subset", t, self.sf.name)
+        if self.eat("|"):
+            params = []
+            while not self.at("|"):
+                params.append(self.pattern1())
+                if self.eat(":"):
+                    self.ty()
+                if not self.eat(","):
+                    break
+            self.expect("|")
+            if self.at("->"):
+                fail("closures with a return type are outside the subset", t, self.sf.name)
+            return ("closure", params, self.expr(), t.line)
         if t.kind == "id":
             if t.text in ("true", "false"):
                 self.i += 1
@@ -1919,22 +1961,1182 @@ def generate():
     return "\n\n".join(out) + "\n"
 
 
+# ----------------------------------------------------------------------------------------------
+# Second target: the whole `interpret` function  ->  Generated/InterpCode.lean
+# ----------------------------------------------------------------------------------------------
+OUT_INTERP = os.path.join(os.path.dirname(OUT), "InterpCode.lean")
+
+INTERP_HEADER = r"""/- GENERATED by tools/rs2lean.py from `fn interpret` of /repo/jmespath/src/interpreter.rs — do not edit.
+
+Translation scheme (trusted; `Lemmas/InterpEquiv.lean` proves the result equal to the hand model `interp`):
+  * `SearchResult` with `ctx: &mut Context`: the function takes the offset register and returns it,
+    `interpret … (ctx_offset : Nat) : Except EvalErr (Val × Nat)`; `e?` propagates `.error`; a read of `ctx.offset`
+    is the current register, `ctx.offset = e;` rebinds it.  After a *failed* call that takes `ctx` the register is
+    unknown (the model's `Except` carries no state on the error side): the translator rejects a source that reads
+    `ctx.offset` (or returns `Ok`) on such a path before assigning it.
+  * Fuel: `interpret` is recursive on a fuel argument; every call of `interpret` and every iteration of a `for`
+    loop whose body touches `ctx` uses one unit (`.error .fuel` when exhausted).  Such a loop is its own function of
+    the `mutual` block: arguments = fuel, the list iterated, the variables it reads (declaration order), the variables
+    it assigns (declaration order), the register; result = the assigned variables and the register.  A `for` loop whose
+    body neither touches `ctx` nor can fail is a structural recursion over the list (no fuel).
+  * `match`/`if`/`if let`/`let`/blocks are translated in continuation-passing style (the rest of the block is
+    duplicated into every branch), so a `Result`-typed variable is always statically `Ok(t)` or `Err(e)`.
+  * API idioms, fixed table:
+      Rcvar::new(Variable::Null | Bool(b) | Array(v) | Object(m) | Expref(a))  ↦  Val.null | .bool b | .arr v | .obj m | .expref a
+      x.clone(), x.to_owned(), &x, *x, x.as_ref(), x.iter(), x.cloned()         ↦  x
+      data.get_field(name) ↦ Val.getField data name        x.is_truthy() ↦ Val.truthy x (tied by gen_truthy_eq)
+      x.is_null() ↦ Val.isNull x                             l.compare(c, r) ↦ Val.compare c l r (tied by gen_compare_gate_eq)
+      o.map_or(a, |x| b) ↦ match o with | some x => b | none => a
+      v.as_array() under `match`/`if let`  ↦  match v with | .arr a => … | _ => …
+      match *v { Variable::Object(ref m) => …, … }  ↦  match v with | .obj m => … | …
+      m.values().cloned().collect::<Vec<Rcvar>>() ↦ List.map Prod.snd m
+      vec![] ↦ []      v.push(x) ↦ v ++ [x]      v.extend(it) ↦ v ++ it      it.rev() / v.reverse(); ↦ List.reverse
+      BTreeMap::new() ↦ []      m.insert(k, x); ↦ insertKV k x m (Model/Value.lean)
+      kvp.key, kvp.value (KeyValuePair) ↦ kvp.1, kvp.2 (the model's `String × Ast`)
+      data.slice(start, stop, step) ↦ variable_slice slice_fn data start stop step (prelude below: `Variable::slice` is
+          checked to be `self.as_array().map(|a| slice(a, start, stop, step))`; the free function `slice` is the parameter
+          `slice_fn`, instantiated with the translated `Generated.Code.slice`, see `slice_rs`; its `Fault` is a panic)
+      the `Ast::Index` arm ↦ index_arm data idx ctx_offset (prelude below: the arm as already translated to
+          `Generated.Code.index` on an array, `Null` on anything else; its `Fault` is a panic)
+      ctx.runtime.get_function(name) ↦ lookup name (parameter, instantiated with `rt.get`)
+      f.evaluate(&args, ctx) ↦ evaluate fuel f args ctx_offset (parameter, instantiated with the model's `callFn rt`)
+      ErrorReason::Runtime(r) ↦ r      RuntimeError::UnknownFunction(s) | InvalidSlice ↦ RtErr.unknownFunction s | .invalidSlice
+      JmespathError::from_ctx(ctx, r) ↦ EvalErr.runtime r ctx_offset
+    An idiom outside the table makes the translator exit 1 (broken tie).
+-/
+import JmesVerif.Generated.Code
+import JmesVerif.Model.Interp
+set_option linter.unusedVariables false
+namespace JmesVerif.Generated.InterpCode
+open JmesVerif
+
+/-! ### fixed prelude: the meaning of the API idioms (not generated from the source) -/
+
+/-- the free function `slice(array, start, stop, step)` of variable.rs, as a parameter -/
+abbrev SliceFn := List Val → Option Int → Option Int → Int → Except Fault (List Val)
+
+/-- the translated `slice` (Generated/Code.lean) with the fuel `len + 1` -/
+def slice_rs : SliceFn := fun xs start stop step => Code.slice (xs.length + 1) xs start stop step
+
+/-- `Variable::slice`: `self.as_array().map(|a| slice(a, start, stop, step))`; a `Fault` of `slice` is a panic -/
+def variable_slice (slice_fn : SliceFn) (self : Val) (start stop : Option Int) (step : Int) :
+    Except EvalErr (Option (List Val)) :=
+  match self with
+  | .arr a =>
+    match slice_fn a start stop step with
+    | .ok r => .ok (some r)
+    | .error _ => .error (.panic "slice")
+  | _ => .ok none
+
+/-- the `Ast::Index` arm: on an array the translated arm `Code.index` (a `Fault` is a panic), `Null` otherwise -/
+def index_arm (data : Val) (idx : Int) (ctx_offset : Nat) : ERes Val :=
+  match data with
+  | .arr xs =>
+    match Code.index xs idx with
+    | .ok r => .ok (r.getD .null, ctx_offset)
+    | .error _ => .error (.panic "index")
+  | _ => .ok (.null, ctx_offset)
+"""
+
+# model constructor and positional field order of every `Ast` variant (Model/Value.lean)
+MODEL_AST = {
+    "Comparison": ("comparison", ["offset", "comparator", "lhs", "rhs"]),
+    "Condition": ("condition", ["offset", "predicate", "then"]),
+    "Identity": ("identity", ["offset"]),
+    "Expref": ("expref", ["offset", "ast"]),
+    "Flatten": ("flatten", ["offset", "node"]),
+    "Function": ("function", ["offset", "name", "args"]),
+    "Field": ("field", ["offset", "name"]),
+    "Index": ("index", ["offset", "idx"]),
+    "Literal": ("literal", ["offset", "value"]),
+    "MultiList": ("multiList", ["offset", "elements"]),
+    "MultiHash": ("multiHash", ["offset", "elements"]),
+    "Not": ("not", ["offset", "node"]),
+    "Projection": ("projection", ["offset", "lhs", "rhs"]),
+    "ObjectValues": ("objectValues", ["offset", "node"]),
+    "And": ("and", ["offset", "lhs", "rhs"]),
+    "Or": ("or", ["offset", "lhs", "rhs"]),
+    "Slice": ("slice", ["offset", "start", "stop", "step"]),
+    "Subexpr": ("subexpr", ["offset", "lhs", "rhs"]),
+}
+# model constructors of `Variable` usable in patterns / `Rcvar::new(Variable::X(..))`: variant -> (ctor, payload type)
+MODEL_VAR = {
+    "Null": ("null", None), "Bool": ("bool", "bool"), "Array": ("arr", ("list", "val")),
+    "Object": ("obj", ("map", "val")), "Expref": ("expref", "ast"), "String": ("str", "string"),
+    "Number": ("num", "number"),
+}
+ITY = {"val": "Val", "ast": "Ast", "kvp": "(String × Ast)", "string": "String", "usize": "Nat", "i32": "Int",
+       "bool": "Bool", "cmp": "Cmp", "fn": "Fn", "rterr": "RtErr", "reason": "RtErr", "jerr": "EvalErr",
+       "unit": "Unit", "number": "Num"}
+
+
+def ity(t):
+    if isinstance(t, TyVar):
+        return ity(t.ty) if t.ty is not None else None
+    if isinstance(t, tuple):
+        if t[0] == "list":
+            inner = ity(t[1])
+            return None if inner is None else f"List {atom(inner)}"
+        if t[0] == "map":
+            return f"List (String × {ity(t[1])})"
+        if t[0] == "opt":
+            return f"Option {atom(ity(t[1]))}"
+    if t in ITY:
+        return ITY[t]
+    raise TieError(f"no Lean type for {t!r}")
+
+
+class TyVar:
+    """element type of a `vec![]` whose type is fixed by its first use"""
+
+    def __init__(self):
+        self.ty = None
+
+    def __eq__(self, other):
+        return resolve(self) == resolve(other) if self.ty is not None else self is other
+
+    def __hash__(self):
+        return id(self)
+
+
+def resolve(t):
+    if isinstance(t, TyVar):
+        return resolve(t.ty) if t.ty is not None else t
+    if isinstance(t, tuple) and t and t[0] in ("list", "opt", "map", "iter"):
+        return (t[0],) + tuple(resolve(x) for x in t[1:])
+    return t
+
+
+def unify(a, b):
+    a, b = resolve(a), resolve(b)
+    if isinstance(a, TyVar):
+        a.ty = b
+        return True
+    if isinstance(b, TyVar):
+        b.ty = a
+        return True
+    if isinstance(a, tuple) and isinstance(b, tuple) and a and b and a[0] == b[0] and len(a) == len(b) \
+            and a[0] in ("list", "opt", "map", "iter"):
+        return all(unify(x, y) for x, y in zip(a[1:], b[1:]))
+    return a == b
+
+
+def snake(name):
+    out = ""
+    for i, ch in enumerate(name):
+        if ch.isupper() and i:
+            out += "_"
+        out += ch.lower()
+    return out
+
+
+def irender(c, ind):
+    """IR of the second target: ("ret", text) | ("let", name, ty, term, rest) | ("match", scrut, [(pat, comp)]) |
+    ("if", cond, c1, c2) — rendered as plain terms (explicit `match` on `Except`, no `do`)"""
+    pad = "  " * ind
+    k = c[0]
+    if k == "ret":
+        return [pad + c[1]]
+    if k == "let":
+        t = ity(c[2]) if c[2] is not None else None
+        return [pad + f"let {c[1]}" + (f" : {t}" if t else "") + f" := {c[3]}"] + irender(c[4], ind)
+    if k == "match":
+        out = [pad + f"match {c[1]} with"]
+        for p, b in c[2]:
+            if b[0] == "ret" and p.startswith(".error ") and "\n" not in b[1]:
+                out.append(pad + f"| {p} => {b[1]}")
+                continue
+            out.append(pad + f"| {p} =>")
+            out += irender(b, ind + 1)
+        return out
+    if k == "if":
+        return [pad + f"if {c[1]} then"] + irender(c[2], ind + 1) + [pad + "else"] + irender(c[3], ind + 1)
+    raise AssertionError(k)
+
+
+def imentions(c, name):
+    import re as _re
+    return _re.search(r"(?<![A-Za-z0-9_'.])" + _re.escape(name) + r"(?![A-Za-z0-9_'])", "\n".join(irender(c, 0))) is not None
+
+
+def isimplify(c):
+    """peepholes: drop a pure `let` nobody reads; `match m with | .error e => .error e | .ok (t, o) => .ok (t, o)` is `m`"""
+    k = c[0]
+    if k == "ret":
+        return c
+    if k == "let":
+        rest = isimplify(c[4])
+        if not imentions(rest, c[1]):
+            return rest
+        return ("let", c[1], c[2], c[3], rest)
+    if k == "if":
+        return ("if", c[1], isimplify(c[2]), isimplify(c[3]))
+    if k == "match":
+        arms = []
+        import re as _re
+        for p, b in c[2]:
+            b = isimplify(b)
+            # `| .ok (t, o) => let x : T := t; rest`  ->  `| .ok (x, o) => rest`
+            if b[0] == "let" and b[3].isidentifier() and b[1].isidentifier() and b[1] != REG and \
+                    _re.search(r"(?<![A-Za-z0-9_'.])" + b[3] + r"(?![A-Za-z0-9_'])", p) and \
+                    not _re.search(r"(?<![A-Za-z0-9_'.])" + b[1] + r"(?![A-Za-z0-9_'])", p) and \
+                    not imentions(b[4], b[3]) and _re.fullmatch(r"t[0-9]+", b[3]):
+                p = _re.sub(r"(?<![A-Za-z0-9_'.])" + b[3] + r"(?![A-Za-z0-9_'])", b[1], p)
+                b = b[4]
+            arms.append((p, b))
+        if len(arms) == 2 and arms[0][0].startswith(".error ") and arms[0][1] == ("ret", arms[0][0]) and \
+                arms[1][0].startswith(".ok ") and arms[1][1] == ("ret", arms[1][0]):
+            return ("ret", c[1])
+        return ("match", c[1], arms)
+    raise AssertionError(k)
+
+
+OFF = "%off"       # env key of the offset register: lean name, or None when unknown (after a failed call)
+REG = "ctx_offset"
+
+
+class InterpGen:
+    def __init__(self, ctx, sf, fn, ast_variants, kvp_fields):
+        self.ctx, self.sf, self.fn = ctx, sf, fn
+        self.ast_variants = {v: dict(fs) for v, fs in ast_variants}
+        self.kvp_fields = kvp_fields
+        self.tmp = 0
+        self.taken = set(used_names(fn["body"])) | set(declared_vars(fn["body"])) | {p for p, _ in fn["params"]}
+        for n in walk(fn["body"]):
+            if n[0] in ("bind",):
+                self.taken.add(n[1])
+        self.taken |= {"fuel", "slice_fn", "lookup", "evaluate", REG, "e", "interpret"}
+        self.loops = {}          # (arm, line) -> (name, text, mutual?)
+        self.loop_order = []
+        self.arm = None
+        self.data_param = self.node_param = self.ctx_param = None
+        self.PARAMS = "slice_fn lookup evaluate"
+        self.PARAM_SIG = "(slice_fn : SliceFn) (lookup : String → Option Fn) (evaluate : Nat → Fn → List Val → Nat → ERes Val)"
+
+    # -- helpers
+    def err(self, msg, line=None):
+        where = f"{self.sf.name}:{line}" if line else self.sf.name
+        arm = f", arm Ast::{self.arm}" if self.arm else ""
+        raise TieError(f"fn interpret ({where}{arm}): {msg}")
+
+    def fresh(self, base="t"):
+        while True:
+            self.tmp += 1
+            n = f"{base}{self.tmp}"
+            if n not in self.taken:
+                self.taken.add(n)
+                return n
+
+    def lname(self, rust):
+        return rust + "_" if rust in LEAN_KEYWORDS or rust in ("e", "fuel", "slice_fn", "lookup", "evaluate", REG,
+                                                               "interpret", "index_arm", "variable_slice") else rust
+
+    @staticmethod
+    def scoped(k, outer, names):
+        """continuation `k` entered when control leaves the scope in which `names` were bound: they get their outer meaning back"""
+        def k2(t, ty, env2):
+            env3 = dict(env2)
+            for n in names:
+                if n in outer:
+                    env3[n] = outer[n]
+                else:
+                    env3.pop(n, None)
+            return k(t, ty, env3)
+        return k2
+
+    def rty(self, t):
+        """Rust type -> type tag"""
+        if t[0] == "ref":
+            return self.rty(t[1])
+        if t[0] == "slice":
+            return ("list", self.rty(t[1]))
+        if t[0] == "path":
+            n, a = t[1], t[2]
+            if n in ("Rcvar", "Variable"):
+                return "val"
+            if n == "Ast":
+                return "ast"
+            if n in ("Box", "Rc", "Arc") and len(a) == 1:
+                return self.rty(a[0])
+            if n == "Vec" and len(a) == 1:
+                return ("list", self.rty(a[0]))
+            if n == "Option" and len(a) == 1:
+                return ("opt", self.rty(a[0]))
+            if n == "BTreeMap" and len(a) == 2 and self.rty(a[0]) == "string":
+                return ("map", self.rty(a[1]))
+            if n in ("String", "str"):
+                return "string"
+            if n in ("usize", "i32", "bool"):
+                return n
+            if n == "Comparator":
+                return "cmp"
+            if n == "KeyValuePair":
+                return "kvp"
+        self.err(f"type {t!r} is outside the subset")
+
+    def off(self, env, line, what):
+        if env.get(OFF) is None:
+            self.err(f"{what} after a failed call that takes `ctx`, before `ctx.offset` is assigned: the value of "
+                     "the register is not representable in the embedding", line)
+        return env[OFF]
+
+    def bind_name(self, name, env):
+        """lean name for a new Rust binding `name`"""
+        ln = self.lname(name)
+        if name in env and name not in self.shadow_ok:
+            return self.fresh(ln + "_")
+        return ln
+
+    def ename(self, env):
+        """binder for the error of a failed call: `e` unless a live value mentions it"""
+        import re as _re
+        for key, v in env.items():
+            if key != OFF and _re.search(r"(?<![A-Za-z0-9_'.])e(?![A-Za-z0-9_'])", v[0]):
+                return self.fresh("e")
+        return "e"
+
+    # -- effects
+    def call_split(self, callterm, env, k, okty="val"):
+        """a call returning `ERes`: split into the failing and the succeeding continuation"""
+        e = self.ename(env)
+        t = self.fresh()
+        env_err = dict(env)
+        env_err[OFF] = None
+        return ("match", callterm, [(f".error {e}", k(e, ("res_err",), env_err)),
+                                    (f".ok ({t}, {REG})", k(t, ("res_ok", okty), dict(env, **{OFF: REG})))])
+
+    def pure(self, e, env, exp=None):
+        """translate an expression that must not have effects; -> (term, ty)"""
+        box = []
+
+        def k(t, ty, env2):
+            if env2 is not env and env2.get(OFF) != env.get(OFF):
+                self.err("an operand has an effect on `ctx` where the embedding needs a pure expression")
+            box.append((t, ty))
+            return ("ret", "%HOLE%")
+        c = self.E(e, env, k, exp)
+        if c != ("ret", "%HOLE%") or len(box) != 1:
+            self.err("an operand has an effect (call of `interpret`, `?`, assignment) where the embedding needs a pure "
+                     "expression", e[-1] if isinstance(e[-1], int) else None)
+        return box[0]
+
+    # -- expressions
+    def E(self, e, env, k, exp=None):
+        kind = e[0]
+        if kind == "path":
+            return self.E_path(e, env, k, exp)
+        if kind == "bool":
+            return k("true" if e[1] else "false", "bool", env)
+        if kind == "int":
+            ty = e[2] or (exp if exp in ("i32", "usize") else None)
+            if ty not in ("i32", "usize"):
+                self.err("cannot determine the type of an integer literal", e[3])
+            if e[1] > (2147483647 if ty == "i32" else 18446744073709551615):
+                self.err("integer literal out of range", e[3])
+            return k(str(e[1]), ty, env)
+        if kind == "unit":
+            return k("()", "unit", env)
+        if kind == "unary":
+            op = e[1]
+            if op in ("&", "*"):
+                return self.E(e[2], env, k, exp)
+            if op == "!":
+                def kn(t, ty, env2):
+                    if ty == "bool":
+                        return k(f"!{atom(t)}", "bool", env2)
+                    if ty == "prop":
+                        return k(f"¬ {atom(t)}", "prop", env2)
+                    self.err("`!` on a non-boolean", e[3])
+                return self.E(e[2], env, kn, "bool")
+            self.err(f"unary `{op}` is outside the subset", e[3])
+        if kind == "binary":
+            return self.E_binary(e, env, k)
+        if kind == "try":
+            def kt(t, ty, env2):
+                if ty == ("res_err",):
+                    return ("ret", f".error {atom(t)}")
+                if isinstance(ty, tuple) and ty[0] == "res_ok":
+                    return k(t, ty[1], env2)
+                self.err(f"`?` applied to something that is not a `Result` ({ty})", e[2])
+            return self.E(e[1], env, kt)
+        if kind == "call":
+            return self.E_call(e, env, k, exp)
+        if kind == "mcall":
+            return self.E_mcall(e, env, k, exp)
+        if kind == "field":
+            return self.E_field(e, env, k)
+        if kind == "macro":
+            if e[1] == "vec" and not e[2]:
+                want = resolve(exp) if exp is not None else None
+                if isinstance(want, tuple) and want[0] == "list":
+                    return k("[]", want, env)
+                return k("[]", ("list", TyVar()), env)
+            self.err(f"macro `{e[1]}!` is outside the subset", e[3])
+        if kind == "assign":
+            return self.E_assign(e, env, k)
+        if kind == "block":
+            return self.B(e, env, k, exp)
+        if kind == "if":
+            return self.E_if(e, env, k, exp)
+        if kind == "match":
+            return self.E_match(e, env, k, exp)
+        if kind == "for":
+            return self.E_for(e, env, k)
+        if kind == "return":
+            if e[1] is None:
+                self.err("`return;` in a function returning a value", e[2])
+            return self.E(e[1], env, self.retk, "result")
+        if kind == "lit" and e[1].startswith('"') and "\\" not in e[1] and "\n" not in e[1]:
+            return k(e[1], "string", env)
+        if kind == "cast" or kind == "index" or kind == "while" or kind == "struct" or kind == "closure" or kind == "lit":
+            self.err(f"expression kind `{kind}` is outside the subset of the `interpret` target", e[-1] if isinstance(e[-1], int) else None)
+        self.err(f"expression kind `{kind}` is outside the subset")
+
+    def E_path(self, e, env, k, exp):
+        segs = e[1]
+        if len(segs) == 1:
+            n = segs[0]
+            if n in env:
+                return k(env[n][0], env[n][1], env)
+            if n == "None":
+                want = resolve(exp)
+                if isinstance(want, tuple) and want[0] == "opt":
+                    return k("none", want, env)
+                self.err("cannot determine the type of `None`", e[2])
+            if n == self.ctx_param:
+                return k("%ctx", "ctx", env)
+            self.err(f"unknown name `{n}`", e[2])
+        name = "::".join(segs)
+        if name == "RuntimeError::InvalidSlice":
+            return k("RtErr.invalidSlice", "rterr", env)
+        if len(segs) == 2 and segs[0] == "Variable" and segs[1] == "Null":
+            return k("%Variable::Null", "variant", env)
+        self.err(f"path `{name}` is outside the idiom table", e[2])
+
+    def E_binary(self, e, env, k):
+        op, l, r, line = e[1], e[2], e[3], e[4]
+        lt, lty = self.pure(l, env, "i32" if r[0] != "int" else None) if l[0] != "int" else (None, None)
+        if l[0] == "int":
+            rt_, rty_ = self.pure(r, env)
+            lt, lty = self.pure(l, env, rty_)
+        else:
+            rt_, rty_ = self.pure(r, env, lty)
+        if op in ("&&", "||"):
+            if lty == "bool" and rty_ == "bool":
+                return k(f"{atom(lt)} {op} {atom(rt_)}", "bool", env)
+            if lty in ("bool", "prop") and rty_ in ("bool", "prop"):
+                a = lt if lty == "prop" else f"{atom(lt)} = true"
+                b = rt_ if rty_ == "prop" else f"{atom(rt_)} = true"
+                return k(f"{atom(a)} {'∧' if op == '&&' else '∨'} {atom(b)}", "prop", env)
+            self.err(f"`{op}` between {lty} and {rty_}", line)
+        if op in ("==", "!=", "<", ">", "<=", ">="):
+            if lty != rty_ or lty not in ("i32", "usize"):
+                self.err(f"`{op}` between {lty} and {rty_} is outside the subset", line)
+            sym = {"==": "=", "!=": "≠", "<": "<", ">": ">", "<=": "≤", ">=": "≥"}[op]
+            return k(f"{atom(lt)} {sym} {atom(rt_)}", "prop", env)
+        self.err(f"operator `{op}` is outside the subset of the `interpret` target", line)
+
+    def E_field(self, e, env, k):
+        recv, f, line = e[1], e[2], e[3]
+        if recv[0] == "path" and recv[1] == [self.ctx_param]:
+            if f == "offset":
+                return k(self.off(env, line, "`ctx.offset` is read"), "usize", env)
+            if f == "runtime":
+                return k("%runtime", "runtime", env)
+            self.err(f"`ctx.{f}` is outside the idiom table", line)
+        t, ty = self.pure(recv, env)
+        if ty == "kvp" and f in self.kvp_fields:
+            return k(f"{atom(t)}.{self.kvp_fields[f][0]}", self.kvp_fields[f][1], env)
+        self.err(f"field access `.{f}` on {ty} is outside the idiom table", line)
+
+    def E_assign(self, e, env, k):
+        op, lhs, rhs, line = e[1], e[2], e[3], e[4]
+        if op != "=":
+            self.err(f"`{op}` is outside the subset of the `interpret` target", line)
+        if lhs[0] == "field" and lhs[1][0] == "path" and lhs[1][1] == [self.ctx_param] and lhs[2] == "offset":
+            t, ty = self.pure(rhs, env, "usize")
+            if ty != "usize":
+                self.err(f"assigning {ty} to `ctx.offset`", line)
+            return ("let", REG, "usize", t, k("()", "unit", dict(env, **{OFF: REG})))
+        if lhs[0] == "path" and len(lhs[1]) == 1 and lhs[1][0] in env:
+            name = lhs[1][0]
+            lean, ty = env[name][0], env[name][1]
+
+            def ka(t, tty, env2):
+                if isinstance(tty, tuple) and tty[0] in ("res_ok", "res_err"):
+                    self.err("assignment of a `Result` to a variable is outside the subset", line)
+                if not unify(ty, tty):
+                    self.err(f"assigning {tty} to a variable of type {ty}", line)
+                if not lean.isidentifier():
+                    self.err(f"assignment to `{name}`, which is not a plain local", line)
+                return ("let", lean, ty, t, k("()", "unit", env2))
+            return self.E(rhs, env, ka, ty)
+        self.err("assignment to something that is neither a local variable nor `ctx.offset`", line)
+
+    def E_ctor_var(self, variant, args, env, k, line):
+        if variant not in MODEL_VAR:
+            self.err(f"`Variable::{variant}` is outside the idiom table", line)
+        ctor, pty = MODEL_VAR[variant]
+        if pty is None:
+            if args:
+                self.err(f"`Variable::{variant}` takes no payload", line)
+            return k(f"Val.{ctor}", "val", env)
+        if len(args) != 1:
+            self.err(f"`Variable::{variant}` takes one payload", line)
+
+        def kp(t, ty, env2):
+            if isinstance(ty, tuple) and ty[0] == "iter":
+                self.err("an iterator where a collection is expected (missing `.collect()`)", line)
+            if ty == "prop" and pty == "bool":
+                t, ty = f"decide {atom(t)}", "bool"
+            if not unify(pty, ty):
+                self.err(f"`Variable::{variant}` applied to {ty}", line)
+            return k(f"Val.{ctor} {atom(t)}", "val", env2)
+        return self.E(args[0], env, kp, pty)
+
+    def E_call(self, e, env, k, exp):
+        f, args, line = e[1], e[2], e[3]
+        if f[0] != "path":
+            self.err("call of a computed function is outside the subset", line)
+        name = "::".join(f[1])
+        if name == "Ok" and len(args) == 1:
+            def ko(t, ty, env2):
+                if isinstance(ty, tuple) and ty[0] in ("res_ok", "res_err"):
+                    self.err("nested `Result`", line)
+                return k(t, ("res_ok", ty), env2)
+            return self.E(args[0], env, ko)
+        if name == "Err" and len(args) == 1:
+            def ke(t, ty, env2):
+                if ty != "jerr":
+                    self.err(f"`Err` of {ty}: only `JmespathError::from_ctx(..)` is in the idiom table", line)
+                return k(t, ("res_err",), env2)
+            return self.E(args[0], env, ke)
+        if name == "Some" and len(args) == 1:
+            return self.E(args[0], env, lambda t, ty, env2: k(f"some {atom(t)}", ("opt", ty), env2))
+        if name in ("Rcvar::new", "Rc::new", "Arc::new") and len(args) == 1:
+            a = args[0]
+            if a[0] == "path" and len(a[1]) == 2 and a[1][0] == "Variable":
+                return self.E_ctor_var(a[1][1], [], env, k, line)
+            if a[0] == "call" and a[1][0] == "path" and len(a[1][1]) == 2 and a[1][1][0] == "Variable":
+                return self.E_ctor_var(a[1][1][1], a[2], env, k, line)
+            self.err(f"`{name}` of something that is not `Variable::X(..)`", line)
+        if name == "BTreeMap::new" and not args:
+            return k("[]", ("map", "val"), env)
+        if name == "ErrorReason::Runtime" and len(args) == 1:
+            t, ty = self.pure(args[0], env)
+            if ty != "rterr":
+                self.err(f"`ErrorReason::Runtime` of {ty}", line)
+            return k(t, "reason", env)
+        if name == "RuntimeError::UnknownFunction" and len(args) == 1:
+            t, ty = self.pure(args[0], env)
+            if ty != "string":
+                self.err(f"`RuntimeError::UnknownFunction` of {ty}", line)
+            return k(f"RtErr.unknownFunction {atom(t)}", "rterr", env)
+        if name == "JmespathError::from_ctx" and len(args) == 2:
+            if not (args[0][0] == "path" and args[0][1] == [self.ctx_param]):
+                self.err("`JmespathError::from_ctx` whose first argument is not `ctx`", line)
+            t, ty = self.pure(args[1], env)
+            if ty != "reason":
+                self.err(f"`JmespathError::from_ctx(ctx, r)` with r of type {ty}: only `ErrorReason::Runtime(..)` is in "
+                         "the idiom table", line)
+            return k(f"EvalErr.runtime {atom(t)} {self.off(env, line, '`ctx.offset` is read (from_ctx)')}", "jerr", env)
+        if name == self.fn["name"] and len(args) == 3:
+            if not (args[2][0] == "path" and args[2][1] == [self.ctx_param]):
+                self.err("recursive call whose last argument is not `ctx`", line)
+            d, dty = self.pure(args[0], env)
+            n, nty = self.pure(args[1], env)
+            if dty != "val" or nty != "ast":
+                self.err(f"recursive call with arguments of types {dty}, {nty}", line)
+            reg = self.off(env, line, "`interpret` is called")
+            return self.call_split(f"interpret {self.PARAMS} fuel {atom(d)} {atom(n)} {reg}", env, k)
+        self.err(f"call of `{name}` is outside the idiom table", line)
+
+    def E_mcall(self, e, env, k, exp):
+        recv, m, args, line = e[1], e[2], e[3], e[4]
+        targs = e[5] if len(e) > 5 else None
+        # statements on a local collection
+        if m in ("push", "extend", "insert", "reverse") and recv[0] == "path" and len(recv[1]) == 1 and recv[1][0] in env:
+            name = recv[1][0]
+            lean, ty = env[name][0], resolve(env[name][1])
+            if isinstance(ty, tuple) and ty[0] == "list" and m == "reverse" and not args:
+                return ("let", lean, env[name][1], f"List.reverse {lean}", k("()", "unit", env))
+            if isinstance(ty, tuple) and ty[0] == "list" and m == "push" and len(args) == 1:
+                def kp(t, tty, env2):
+                    if isinstance(tty, tuple) and tty[0] in ("res_ok", "res_err"):
+                        self.err("pushing a `Result`", line)
+                    if not unify(ty[1], tty):
+                        self.err(f"pushing {tty} onto a Vec of {ty[1]}", line)
+                    return ("let", lean, env[name][1], f"{lean} ++ [{t}]", k("()", "unit", env2))
+                return self.E(args[0], env, kp, ty[1])
+            if isinstance(ty, tuple) and ty[0] == "list" and m == "extend" and len(args) == 1:
+                t, tty = self.pure(args[0], env)
+                tty = resolve(tty)
+                if not (isinstance(tty, tuple) and tty[0] in ("iter", "list") and unify(ty[1], tty[1])):
+                    self.err(f"extending a Vec of {ty[1]} with {tty}", line)
+                return ("let", lean, env[name][1], f"{lean} ++ {atom(t)}", k("()", "unit", env))
+            if isinstance(ty, tuple) and ty[0] == "map" and m == "insert" and len(args) == 2:
+                kt, kty = self.pure(args[0], env)
+                if kty != "string":
+                    self.err(f"`insert` with a key of type {kty}", line)
+
+                def ki(t, tty, env2):
+                    if not unify(ty[1], tty):
+                        self.err(f"inserting {tty} into a map of {ty[1]}", line)
+                    return ("let", lean, env[name][1], f"insertKV {atom(kt)} {atom(t)} {lean}", k("%insert", "discard", env2))
+                return self.E(args[1], env, ki, ty[1])
+        if m == "evaluate" and len(args) == 2:
+            f, fty = self.pure(recv, env)
+            if fty != "fn":
+                self.err(f"`.evaluate` on {fty}", line)
+            if not (args[1][0] == "path" and args[1][1] == [self.ctx_param]):
+                self.err("`.evaluate(args, x)` whose last argument is not `ctx`", line)
+            a, aty = self.pure(args[0], env)
+            if not unify(aty, ("list", "val")):
+                self.err(f"`.evaluate` with arguments of type {aty}", line)
+            reg = self.off(env, line, "`evaluate` is called")
+            return self.call_split(f"evaluate fuel {atom(f)} {atom(a)} {reg}", env, k)
+
+        def kr(r, rty, env2):
+            rty = resolve(rty)
+            if rty == "runtime" and m == "get_function" and len(args) == 1:
+                t, ty = self.pure(args[0], env2)
+                if ty != "string":
+                    self.err(f"`get_function` of {ty}", line)
+                return k(f"lookup {atom(t)}", ("opt", "fn"), env2)
+            if m in ("clone", "to_owned", "as_ref", "to_string") and not args and rty in ("val", "ast", "string", "cmp") \
+                    and not (m == "to_string" and rty != "string"):
+                return k(r, rty, env2)
+            if m == "clone" and not args and isinstance(rty, tuple) and rty[0] in ("list", "map"):
+                return k(r, rty, env2)
+            if rty == "val":
+                if m == "get_field" and len(args) == 1:
+                    t, ty = self.pure(args[0], env2)
+                    if ty != "string":
+                        self.err(f"`get_field` of {ty}", line)
+                    return k(f"Val.getField {atom(r)} {atom(t)}", "val", env2)
+                if m == "is_truthy" and not args:
+                    return k(f"Val.truthy {atom(r)}", "bool", env2)
+                if m == "is_null" and not args:
+                    return k(f"Val.isNull {atom(r)}", "bool", env2)
+                if m == "compare" and len(args) == 2:
+                    c, cty = self.pure(args[0], env2)
+                    o, oty = self.pure(args[1], env2)
+                    if cty != "cmp" or oty != "val":
+                        self.err(f"`compare` with arguments of types {cty}, {oty}", line)
+                    return k(f"Val.compare {atom(c)} {atom(r)} {atom(o)}", ("opt", "bool"), env2)
+                if m == "as_array" and not args:
+                    return k(r, ("opt_arr",), env2)
+                if m == "slice" and len(args) == 3:
+                    ts = []
+                    for a, want in zip(args, (("opt", "i32"), ("opt", "i32"), "i32")):
+                        t, ty = self.pure(a, env2, want)
+                        if resolve(ty) != want:
+                            self.err(f"`slice` with an argument of type {ty}", line)
+                        ts.append(atom(t))
+                    self.uses_variable_slice = True
+                    v, e_ = self.fresh(), self.ename(env2)
+                    return ("match", f"variable_slice slice_fn {atom(r)} {' '.join(ts)}",
+                            [(f".error {e_}", ("ret", f".error {e_}")),
+                             (f".ok {v}", k(v, ("opt", ("list", "val")), env2))])
+            if isinstance(rty, tuple) and rty[0] == "opt" and m == "map_or" and len(args) == 2:
+                d, dty = self.pure(args[0], env2)
+                cl = args[1]
+                if cl[0] != "closure" or len(cl[1]) != 1 or cl[1][0][0] != "bind":
+                    self.err("`map_or` whose second argument is not a one-parameter closure", line)
+                x = cl[1][0][1]
+                lx = self.bind_name(x, env2)
+                env3 = dict(env2)
+                env3[x] = (lx, rty[1], 99)
+                b, bty = self.pure(cl[2], env3)
+                if not unify(dty, bty):
+                    self.err(f"`map_or` with a default of type {dty} and a closure returning {bty}", line)
+                return k(f"(match {r} with | some {lx} => {b} | none => {d})", bty, env2)
+            if isinstance(rty, tuple) and rty[0] == "map" and m == "values" and not args:
+                return k(f"List.map Prod.snd {atom(r)}", ("iter", rty[1]), env2)
+            if isinstance(rty, tuple) and rty[0] == "list" and m == "iter" and not args:
+                return k(r, ("iter", rty[1]), env2)
+            if isinstance(rty, tuple) and rty[0] == "iter" and m == "cloned" and not args:
+                return k(r, rty, env2)
+            if isinstance(rty, tuple) and rty[0] == "iter" and m == "rev" and not args:
+                return k(f"List.reverse {atom(r)}", rty, env2)
+            if isinstance(rty, tuple) and rty[0] == "iter" and m == "collect" and not args:
+                want = None
+                if targs is not None and len(targs) == 1:
+                    want = self.rty(targs[0]) if not (targs[0][0] == "path" and targs[0][1] == "Vec" and
+                                                       targs[0][2] and targs[0][2][0] == ("path", "_", [])) else ("list", rty[1])
+                elif exp is not None:
+                    want = resolve(exp)
+                if not (isinstance(want, tuple) and want[0] == "list" and unify(want[1], rty[1])):
+                    self.err(f"`collect` of an iterator over {rty[1]} into {want}: only `Vec` is in the idiom table", line)
+                return k(r, ("list", rty[1]), env2)
+            self.err(f"method `.{m}` on {rty} is outside the idiom table", line)
+        return self.E(recv, env, kr)
+
+    # -- patterns: -> (lean pattern, env')
+    def P(self, pat, sty, env, line):
+        env = dict(env)
+        sty = resolve(sty)
+        k = pat[0]
+        if k == "wild":
+            return "_", env
+        if k == "bind":
+            ln = self.bind_name(pat[1], env)
+            env[pat[1]] = (ln, sty, 99)
+            return ln, env
+        name = "::".join(pat[1]) if k in ("tstruct", "ppath", "pstruct") else None
+        subs = pat[2] if k == "tstruct" else []
+        if k in ("tstruct", "ppath") and isinstance(sty, tuple) and sty[0] in ("opt", "opt_arr"):
+            inner = ("list", "val") if sty[0] == "opt_arr" else sty[1]
+            if name == "Some" and len(subs) == 1 and subs[0][0] in ("bind", "wild"):
+                sp, env = self.P(subs[0], inner, env, line)
+                return (f".arr {sp}" if sty[0] == "opt_arr" else f"some {sp}"), env
+            if name == "None" and k == "ppath":
+                return ("%none" if sty[0] == "opt_arr" else "none"), env
+        if k in ("tstruct", "ppath") and sty == "val" and len(pat[1]) == 2 and pat[1][0] == "Variable" \
+                and pat[1][1] in MODEL_VAR:
+            ctor, pty = MODEL_VAR[pat[1][1]]
+            if pty is None and k == "ppath":
+                return f".{ctor}", env
+            if pty is not None and len(subs) == 1 and subs[0][0] in ("bind", "wild"):
+                sp, env = self.P(subs[0], pty, env, line)
+                return f".{ctor} {sp}", env
+        if k == "pstruct" and sty == "ast" and len(pat[1]) == 2 and pat[1][0] == "Ast" and pat[1][1] in MODEL_AST:
+            variant = pat[1][1]
+            ctor, order = MODEL_AST[variant]
+            ftys = self.ast_variants[variant]
+            given = dict(pat[2])
+            for f in given:
+                if f not in ftys:
+                    self.err(f"`Ast::{variant}` has no field `{f}`", line)
+            if not pat[3] and set(given) != set(order):
+                self.err(f"pattern `Ast::{variant} {{ .. }}` does not name every field", line)
+            parts = []
+            for f in order:
+                if f not in given:
+                    parts.append("_")
+                    continue
+                if given[f][0] not in ("bind", "wild"):
+                    self.err("nested patterns are outside the subset", line)
+                sp, env = self.P(given[f], self.rty(ftys[f]), env, line)
+                parts.append(sp)
+            return " ".join([f".{ctor}"] + parts), env
+        self.err(f"pattern {name or pat!r} on {sty} is outside the subset", line)
+
+    # -- control flow
+    def cond(self, c, env, k):
+        """condition of an `if`: -> k(lean condition text, env)"""
+        t, ty = self.pure(c, env, "bool")
+        if ty not in ("bool", "prop"):
+            self.err(f"condition of type {ty}")
+        return t
+
+    def E_if(self, e, env, k, exp):
+        cnd, then, els, line = e[1], e[2], e[3], e[4]
+
+        def else_comp(env2):
+            if els is None:
+                return k("()", "unit", env2)
+            if els[0] == "if":
+                return self.E_if(els, env2, k, exp)
+            return self.B(els, env2, k, exp)
+        if cnd[0] == "letcond":
+            pat, scrut = cnd[1], cnd[2]
+
+            def ks(s, sty, env2):
+                lp, env3 = self.P(pat, sty, env2, line)
+                if pat[0] in ("bind", "wild"):
+                    self.err("irrefutable `if let`", line)
+                kthen = self.scoped(k, env2, pat_binders(pat))
+                if lp == "%none":
+                    return ("match", s, [(".arr _", else_comp(env2)), ("_", self.B(then, env3, kthen, exp))])
+                return ("match", s, [(lp, self.B(then, env3, kthen, exp)), ("_", else_comp(env2))])
+            return self.E(scrut, env, ks)
+        return ("if", self.cond(cnd, env, k), self.B(then, env, k, exp), else_comp(env))
+
+    def E_match(self, e, env, k, exp):
+        scrut, arms, line = e[1], e[2], e[3]
+
+        def ks(s, sty, env2):
+            sty = resolve(sty)
+            if isinstance(sty, tuple) and sty[0] in ("res_ok", "res_err"):
+                self.err("`match` on a `Result` is outside the subset (use `?`)", line)
+            out, wild, rest_arm = [], None, None
+            for pat, guard, body in arms:
+                if guard is not None:
+                    self.err("match guards are outside the subset of the `interpret` target", line)
+                if pat[0] == "or":
+                    self.err("or-patterns are outside the subset of the `interpret` target", line)
+                if pat[0] == "bind":
+                    self.err("binding the whole scrutinee in a match arm is outside the subset", line)
+                if wild is not None:
+                    continue      # unreachable in Rust as well
+                lp, env3 = self.P(pat, sty, env2, line)
+                c = self.E(body, env3, self.scoped(k, env2, pat_binders(pat)), exp)
+                if lp == "_":
+                    wild = c
+                elif lp == "%none":   # `None` of `.as_array()`: every value that is not an array
+                    if rest_arm is None:
+                        rest_arm = c
+                else:
+                    out.append((lp, c))
+            if rest_arm is not None:
+                out.append(("_", rest_arm))
+            elif wild is not None:
+                out.append(("_", wild))
+            if len(out) == 1 and out[0][0] == "_":
+                return out[0][1]
+            return ("match", s, out)
+        return self.E(scrut, env, ks)
+
+    def B(self, block, env, k, exp=None):
+        stmts, tail = block[1], block[2]
+        # the block's own declarations end with it
+        k = self.scoped(k, env, [s[1][1] for s in stmts if s[0] == "let" and s[1][0] == "bind"])
+
+        def go(i, env):
+            if i == len(stmts):
+                if tail is None:
+                    return k("()", "unit", env)
+                return self.E(tail, env, k, exp)
+            s = stmts[i]
+            if s[0] == "let":
+                pat, ty, init, line = s[1], s[2], s[3], s[4]
+                if pat[0] != "bind":
+                    self.err("only `let name` patterns are in the subset", line)
+                if init is None:
+                    self.err("`let` without initialiser is outside the subset", line)
+                name = pat[1]
+                dty = self.rty(ty) if ty else None
+
+                def kl(t, tty, env2):
+                    if tty in ("unit", "discard", "ctx", "runtime", "variant"):
+                        self.err(f"`let {name}` bound to something that is not a value", line)
+                    if dty is not None and not (isinstance(tty, tuple) and tty[0] in ("res_ok", "res_err")) \
+                            and not unify(dty, tty):
+                        self.err(f"`let {name}: {dty}` initialised with {tty}", line)
+                    env3 = dict(env2)
+                    static = isinstance(tty, tuple) and tty[0] in ("res_ok", "res_err", "opt_arr", "iter")
+                    if static and all(ch.isalnum() or ch in "_'" for ch in t):
+                        env3[name] = (t, tty, 1)
+                        return go(i + 1, env3)
+                    if tty == "prop":
+                        t, tty = f"decide {atom(t)}", "bool"
+                    lean = self.bind_name(name, env2) if not static else self.fresh()
+                    if static:
+                        lty = {"res_ok": tty[1] if tty[0] == "res_ok" else None, "res_err": "jerr",
+                               "opt_arr": "val"}.get(tty[0])
+                        if tty[0] == "iter":
+                            lty = ("list", tty[1])
+                        env3[name] = (lean, tty, 1)
+                        return ("let", lean, lty, t, go(i + 1, env3))
+                    env3[name] = (lean, tty, 1)
+                    return ("let", lean, tty, t, go(i + 1, env3))
+                return self.E(init, env, kl, dty)
+            e = s[1]
+
+            def ke(t, tty, env2):
+                if isinstance(tty, tuple) and tty[0] in ("res_ok", "res_err"):
+                    self.err("a `Result` is dropped without `?`", s[2])
+                return go(i + 1, env2)
+            return self.E(e, env, ke)
+        return go(0, env)
+
+    # -- loops
+    def E_for(self, e, env, k):
+        pat, it, body, line, endline = e[1], e[2], e[3], e[4], e[5]
+        if pat[0] != "bind":
+            self.err("`for` with a pattern other than a name is outside the subset", line)
+        if has_kind(body, "return") or has_kind(body, "for") or has_kind(body, "while"):
+            self.err("`return` or a nested loop inside `for` is outside the subset", line)
+        itt, itty = self.pure(it, env)
+        itty = resolve(itty)
+        if not (isinstance(itty, tuple) and itty[0] in ("list", "iter")):
+            self.err(f"`for` over {itty} is outside the subset", line)
+        elty = itty[1]
+        inner_decl = set(declared_vars(body)) | {pat[1]}
+        state = []
+        for n in walk(body):
+            v = None
+            if n[0] == "assign" and n[2][0] == "path" and len(n[2][1]) == 1:
+                v = n[2][1][0]
+            if n[0] == "mcall" and n[2] in ("push", "extend", "insert", "reverse") and n[1][0] == "path" and len(n[1][1]) == 1:
+                v = n[1][1][0]
+            if v is not None and v in env and v not in inner_decl and v not in state:
+                state.append(v)
+        state = [v for v in env if v in state]
+        names = used_names(body)
+        touches_ctx = self.ctx_param in names
+        can_fail = has_kind(body, "try")
+        frees = [v for v in env if v != OFF and v in names and v not in state and v not in inner_decl
+                 and v != self.ctx_param]
+        for v in frees + state:
+            if not env[v][0].isidentifier():
+                self.err(f"loop uses `{v}`, which is not a plain local", line)
+            if isinstance(resolve(env[v][1]), tuple) and resolve(env[v][1])[0] in ("res_ok", "res_err", "opt_arr", "iter"):
+                self.err(f"loop uses `{v}` of type {env[v][1]}", line)
+        mutual = touches_ctx or can_fail
+        lst = itt if itt.isidentifier() and itt not in [env[v][0] for v in frees + state] else self.fresh("items")
+        x = self.lname(pat[1])
+        if x in [env[v][0] for v in frees + state] or x == lst:
+            x = self.fresh(x + "_")
+        key = (self.arm, line)
+        base = f"interpret_{snake(self.arm or 'body')}_loop"
+        if key in self.loops:
+            lname = self.loops[key][0]
+        else:
+            n = sum(1 for kk in self.loops if kk[0] == self.arm)
+            lname = base if n == 0 else f"{base}_{n + 1}"
+        sttuple = "()" if not state else (env[state[0]][0] if len(state) == 1 else
+                                          "(" + ", ".join(env[v][0] for v in state) + ")")
+        benv = {v: (env[v][0], env[v][1], 0) for v in frees + state}
+        benv[pat[1]] = (x, elty, 1)
+        if mutual:
+            reg = self.off(env, line, "a loop that uses `ctx` starts")
+            benv[OFF] = REG
+            call = " ".join([lname, self.PARAMS, "fuel", lst] + [env[v][0] for v in frees] +
+                            [env[v][0] for v in state] + [REG])
+
+            def kend(t, ty, env2):
+                if env2.get(OFF) is None:
+                    self.err("the loop body ends with `ctx.offset` unknown", line)
+                return ("ret", call)
+            bodyc = isimplify(self.B(body, benv, kend))
+            stty = "Unit" if not state else " × ".join(atom(ity(env[v][1]) or "_") for v in state)
+            doc = (f"/-- `for {pat[1]} in ..` of `Ast::{self.arm}`, {self.sf.name}:{line}-{endline}; reads: "
+                   f"{', '.join(frees) or '-'}; state: {', '.join(state + ['ctx.offset'])} -/")
+            argtys = [f"List {atom(ity(elty))}"] + [ity(env[v][1]) for v in frees] + [ity(env[v][1]) for v in state]
+            lines = [doc,
+                     f"def {lname} {self.PARAM_SIG} :",
+                     "    Nat → " + " → ".join(argtys + ["Nat"]) + f" → ERes {atom(stty)}",
+                     "  | " + ", ".join(["0"] + ["_"] * (len(argtys) + 1)) + " => .error .fuel",
+                     "  | " + ", ".join(["fuel + 1", lst] + [env[v][0] for v in frees] +
+                                        [env[v][0] for v in state] + [REG]) + " =>",
+                     f"    match {lst} with",
+                     f"    | [] => .ok ({sttuple}, {REG})",
+                     f"    | {x} :: {lst} =>"]
+            lines += irender(bodyc, 3)
+            text = "\n".join(lines)
+            start = " ".join([lname, self.PARAMS, "fuel", atom(itt)] + [env[v][0] for v in frees] +
+                             [env[v][0] for v in state] + [reg])
+            ename = self.ename(env)
+            after = ("match", start, [(f".error {ename}", ("ret", f".error {ename}")),
+                                      (f".ok ({sttuple if state else '_'}, {REG})", k("()", "unit", dict(env, **{OFF: REG})))])
+        else:
+            call = " ".join([lname, lst] + [env[v][0] for v in frees] + [env[v][0] for v in state])
+
+            def kend(t, ty, env2):
+                return ("ret", call)
+            bodyc = isimplify(self.B(body, benv, kend))
+            stty = "Unit" if not state else " × ".join(atom(ity(env[v][1]) or "_") for v in state)
+            doc = (f"/-- `for {pat[1]} in ..` of `Ast::{self.arm}`, {self.sf.name}:{line}-{endline} (the body neither uses `ctx` "
+                   f"nor fails: structural recursion); reads: {', '.join(frees) or '-'}; state: {', '.join(state) or '-'} -/")
+            argtys = [f"List {atom(ity(elty))}"] + [ity(env[v][1]) for v in frees] + [ity(env[v][1]) for v in state]
+            lines = [doc,
+                     f"def {lname} : " + " → ".join(argtys) + f" → {stty}",
+                     "  | " + ", ".join(["[]"] + [env[v][0] for v in frees] + [env[v][0] for v in state]) + f" => {sttuple}",
+                     "  | " + ", ".join([f"{x} :: {lst}"] + [env[v][0] for v in frees] + [env[v][0] for v in state]) + " =>"]
+            lines += irender(bodyc, 2)
+            text = "\n".join(lines)
+            start = " ".join([lname, atom(itt)] + [env[v][0] for v in frees] + [env[v][0] for v in state])
+            if not state:
+                after = k("()", "unit", env)
+            elif len(state) == 1:
+                after = ("let", env[state[0]][0], env[state[0]][1], start, k("()", "unit", env))
+            else:
+                after = ("match", start, [(sttuple, k("()", "unit", env))])
+        if key in self.loops:
+            if self.loops[key][1] != text:
+                self.err("a loop reached along two paths translates differently", line)
+        else:
+            self.loops[key] = (lname, text, mutual)
+            self.loop_order.append(key)
+        return after
+
+    # -- results
+    def retk(self, t, ty, env):
+        ty = resolve(ty)
+        if ty == ("res_err",):
+            return ("ret", f".error {atom(t)}")
+        if isinstance(ty, tuple) and ty[0] == "res_ok":
+            if resolve(ty[1]) != "val":
+                self.err(f"the function returns `Ok` of {ty[1]}")
+            if env.get(OFF) is None:
+                self.err("`Ok(..)` is returned after a failed call that takes `ctx`, before `ctx.offset` is assigned")
+            return ("ret", f".ok ({t}, {env[OFF]})")
+        self.err(f"the function returns {ty}, not a `SearchResult`")
+
+    # -- the function
+    def gen(self):
+        fn = self.fn
+        ps = fn["params"]
+        if len(ps) != 3:
+            self.err("expected `fn interpret(data, node, ctx)`")
+        (d, dt), (n, nt), (c, ct) = ps
+        if self.rty(dt) != "val" or self.rty(nt) != "ast":
+            self.err("expected `fn interpret(data: &Rcvar, node: &Ast, ctx: &mut Context<'_>)`")
+        if not (ct[0] == "ref" and ct[1][0] == "path" and ct[1][1] == "Context"):
+            self.err("expected the third parameter to be `ctx: &mut Context<'_>`")
+        rt = fn["ret"]
+        if not (rt[0] == "path" and rt[1] == "SearchResult"):
+            self.err("expected the return type `SearchResult`")
+        self.data_param, self.node_param, self.ctx_param = d, n, c
+        body = fn["body"]
+        if body[1] or body[2] is None or body[2][0] != "match":
+            self.err("expected the body to be a single `match *node { .. }`")
+        m = body[2]
+        scrut = m[1]
+        while scrut[0] == "unary" and scrut[1] in ("*", "&"):
+            scrut = scrut[2]
+        if not (scrut[0] == "path" and scrut[1] == [n]):
+            self.err("expected the body to be a single `match *node { .. }`")
+        ld, ln = self.lname(d), self.lname(n)
+        env0 = {d: (ld, "val", 0), n: (ln, "ast", 0), OFF: REG}
+        arms_out, seen, wild = [], set(), None
+        for pat, guard, abody in m[2]:
+            line = None
+            if guard is not None:
+                self.err("guards on the arms of `match *node` are outside the subset")
+            if pat[0] == "wild":
+                self.arm = "_"
+                self.shadow_ok = set()
+                wild = isimplify(self.E(abody, env0, self.retk, "result"))
+                continue
+            if pat[0] != "pstruct" or len(pat[1]) != 2 or pat[1][0] != "Ast" or pat[1][1] not in MODEL_AST:
+                self.err(f"arm pattern {pat!r} of `match *node` is outside the subset")
+            variant = pat[1][1]
+            if variant in seen:
+                self.err(f"two arms for `Ast::{variant}`")
+            seen.add(variant)
+            self.arm = variant
+            self.shadow_ok = {n, d}      # the arm is in tail position: its binders may shadow the parameters
+            lp, env1 = self.P(pat, "ast", env0, None)
+            self.shadow_ok = set()
+            if variant == "Index":
+                idx = dict(pat[2]).get("idx")
+                if idx is None or idx[0] != "bind":
+                    self.err("the `Ast::Index` arm does not bind `idx`")
+                comp = ("ret", f"index_arm {ld} {env1[idx[1]][0]} {REG}")
+            else:
+                comp = isimplify(self.E(abody, env1, self.retk, "result"))
+            arms_out.append((variant, lp, comp, self.sf.arm_lines.get(id(pat))))
+        self.arm = None
+        if wild is None and seen != set(MODEL_AST):
+            self.err(f"`match *node` has no arm for {sorted(set(MODEL_AST) - seen)}")
+        return ld, ln, arms_out, wild
+
+
+def check_variable_slice(ctx, var):
+    """`Variable::slice` must be `self.as_array().map(|a| slice(a, start, stop, step))` (the hard-mapped idiom)"""
+    fn = Parser(var, var.find_fn("Variable", "slice")).fn()
+    ctx.add_region(var, fn["toks"][0], fn["toks"][1])
+    ok = False
+    b = fn["body"]
+    ps = [p for p, _ in fn["params"]]
+    if not b[1] and b[2] is not None and len(ps) == 4 and ps[0] == "self":
+        t = b[2]
+        if t[0] == "mcall" and t[2] == "map" and len(t[3]) == 1 and t[1][0] == "mcall" and t[1][2] == "as_array" \
+                and not t[1][3] and t[1][1][0] == "path" and t[1][1][1] == ["self"]:
+            cl = t[3][0]
+            if cl[0] == "closure" and len(cl[1]) == 1 and cl[1][0][0] == "bind":
+                a = cl[1][0][1]
+                c = cl[2]
+                if c[0] == "call" and c[1][0] == "path" and c[1][1] == ["slice"] and \
+                        [x[1] if x[0] == "path" else None for x in c[2]] == [[a], [ps[1]], [ps[2]], [ps[3]]]:
+                    ok = True
+    if not ok:
+        raise TieError("fn Variable::slice (variable.rs) is no longer `self.as_array().map(|a| slice(a, start, stop, step))`: "
+                       "the idiom `data.slice(..)` of the table is not justified")
+
+
+def generate_interp():
+    ctx = Ctx()
+    ast = ctx.file("ast.rs")
+    interp = ctx.file("interpreter.rs")
+    var = ctx.file("variable.rs")
+    if "Ast" not in ast.enums:
+        raise TieError("cannot find `enum Ast` in ast.rs")
+    p = Parser(ast, ast.enums["Ast"])
+    a0 = p.i
+    _, avariants, _, _ = p.enum()
+    ctx.add_region(ast, a0, p.i)
+    have = {v: [f for f, _ in fs] for v, fs in avariants}
+    for v, (ctor, order) in MODEL_AST.items():
+        if v not in have or sorted(have[v]) != sorted(order):
+            raise TieError(f"`Ast::{v}` in ast.rs has fields {have.get(v)}, the model's `Ast.{ctor}` has {order}")
+    for v in have:
+        if v not in MODEL_AST:
+            raise TieError(f"`Ast::{v}` in ast.rs has no counterpart in the model")
+    if "KeyValuePair" not in ast.structs:
+        raise TieError("cannot find `struct KeyValuePair` in ast.rs")
+    sp = Parser(ast, ast.structs["KeyValuePair"])
+    a0 = sp.i
+    _, kfields, _, _ = sp.struct()
+    ctx.add_region(ast, a0, sp.i)
+    if [(f, t[1]) for f, t in kfields if t[0] == "path"] != [("key", "String"), ("value", "Ast")] or len(kfields) != 2:
+        raise TieError("`struct KeyValuePair` is no longer `{ key: String, value: Ast }`")
+    kvp = {"key": ("1", "string"), "value": ("2", "ast")}
+    check_variable_slice(ctx, var)
+    fn = Parser(interp, interp.find_fn(None, "interpret", True)).fn()
+    ctx.add_region(interp, fn["toks"][0], fn["toks"][1])
+    g = InterpGen(ctx, interp, fn, avariants, kvp)
+    ld, ln, arms, wild = g.gen()
+    # line ranges of the arms, for the comments
+    out = [INTERP_HEADER]
+    out.append(f"/-! ### interpreter.rs: `fn interpret`, lines {fn['start']}-{fn['end']} -/")
+    for key in g.loop_order:
+        name, text, mutual = g.loops[key]
+        if not mutual:
+            out.append(text)
+    lines = ["mutual", "",
+             f"/-- `fn interpret`, {interp.name}:{fn['start']}-{fn['end']} -/",
+             f"def interpret {g.PARAM_SIG} :",
+             "    Nat → Val → Ast → Nat → ERes Val",
+             "  | 0, _, _, _ => .error .fuel",
+             f"  | fuel + 1, {ld}, {ln}, {REG} =>",
+             f"    match {ln} with"]
+    for variant, lp, comp, span in arms:
+        where = "" if not span else (f", {interp.name}:{span[0]}" + (f"-{span[1]}" if span[1] != span[0] else ""))
+        lines.append(f"    -- `Ast::{variant}`{where}")
+        lines.append(f"    | {lp} =>")
+        lines += irender(comp, 3)
+    if wild is not None:
+        lines.append("    | _ =>")
+        lines += irender(wild, 3)
+    block = ["\n".join(lines)]
+    for key in g.loop_order:
+        name, text, mutual = g.loops[key]
+        if mutual:
+            block.append(text)
+    block.append("end")
+    out.append("\n\n".join(block))
+    out.append(f"/-- SHA-256 over the tokens of the translated regions (informational) -/\n"
+               f"def sourceDigest : String := \"{ctx.digest.hexdigest()}\"")
+    out.append("end JmesVerif.Generated.InterpCode")
+    return "\n\n".join(out) + "\n"
+
+
+def write_if_changed(path, text):
+    old = None
+    if os.path.exists(path):
+        old = open(path, encoding="utf-8").read()
+    if old != text:
+        os.makedirs(os.path.dirname(path), exist_ok=True)
+        with open(path, "w", encoding="utf-8") as f:
+            f.write(text)
+
+
 def main():
     try:
         text = generate()
+        itext = generate_interp()
     except TieError as e:
         sys.stderr.write(f"rs2lean.py: broken tie: {e}\n")
         sys.exit(1)
     except (IndexError, KeyError, TypeError, ValueError, AssertionError, RecursionError, StopIteration) as e:
         sys.stderr.write(f"rs2lean.py: broken tie: the source could not be processed ({type(e).__name__}: {e})\n")
         sys.exit(1)
-    old = None
-    if os.path.exists(OUT):
-        old = open(OUT, encoding="utf-8").read()
-    if old != text:
-        os.makedirs(os.path.dirname(OUT), exist_ok=True)
-        with open(OUT, "w", encoding="utf-8") as f:
-            f.write(text)
+    write_if_changed(OUT, text)
+    write_if_changed(os.environ.get("RS2LEAN_INTERP_OUT") or OUT_INTERP, itext)
 
 
 if __name__ == "__main__":
